@@ -113,7 +113,30 @@ func toNative(v value) any {
 	return v
 }
 
-type pool struct{ items []value }
+// pool models sync.Pool on one P: a private slot plus a shared list (head = last pushed).
+type pool struct {
+	private value
+	shared  []value
+	choices int
+}
+
+// poolOf: the model lives in the sync.Pool value itself (its `local` slot), so that assigning
+// a fresh sync.Pool{} to the variable (internals.ClearPools) really empties it.
+func poolOf(p *value, create bool) *pool {
+	st := (*p).(structure)
+	if pl, ok := st[1].(*pool); ok && pl != nil {
+		return pl
+	}
+	if !create {
+		return nil
+	}
+	pl := &pool{}
+	st[1] = pl
+	return pl
+}
+
+// MaxPoolChoices bounds how many Get calls per pool are schedule choice points on one path.
+var MaxPoolChoices = 1
 
 func strArg(v value) string {
 	s, ok := v.(string)
@@ -283,20 +306,32 @@ func init() {
 	for k, v := range map[string]externalFn{
 		"(*sync.Pool).Get": func(fr *frame, args []value) value {
 			p := args[0].(*value)
-			pl := cur.pools[p]
-			n := 0
-			if pl != nil {
-				n = len(pl.items)
-			}
-			if n > 0 {
-				k := n - 1 // default: LIFO, like the per-P private slot
-				if cur.poolPick {
-					k = cur.choose(n+1, "pool") - 1 // -1: New()
-					cur.sched = append(cur.sched, fmt.Sprintf("pool-get:%d/%d", k, n))
+			pl := poolOf(p, false)
+			if pl != nil && (pl.private != nil || len(pl.shared) > 0) {
+				// candidates in the order the runtime would hand them back: the per-P private
+				// slot first, then the shared list from its head (most recently pushed)
+				var cands []int // -2: private, i>=0: index in shared
+				if pl.private != nil {
+					cands = append(cands, -2)
 				}
-				if k >= 0 {
-					it := pl.items[k]
-					pl.items = append(pl.items[:k:k], pl.items[k+1:]...)
+				for i := len(pl.shared) - 1; i >= 0; i-- {
+					cands = append(cands, i)
+				}
+				k := 0
+				if cur.poolPick && pl.choices < MaxPoolChoices {
+					pl.choices++
+					k = cur.choose(len(cands)+1, "pool") // last alternative: New()
+					cur.sched = append(cur.sched, fmt.Sprintf("pool-get:%d/%d", k, len(cands)))
+				}
+				if k < len(cands) {
+					var it value
+					if cands[k] == -2 {
+						it, pl.private = pl.private, nil
+					} else {
+						i := cands[k]
+						it = pl.shared[i]
+						pl.shared = append(pl.shared[:i:i], pl.shared[i+1:]...)
+					}
 					return it
 				}
 			}
@@ -309,10 +344,15 @@ func init() {
 		},
 		"(*sync.Pool).Put": func(fr *frame, args []value) value {
 			p := args[0].(*value)
-			if cur.pools[p] == nil {
-				cur.pools[p] = &pool{}
+			pl := poolOf(p, true)
+			if it, ok := args[1].(iface); ok && it.t == nil {
+				return nil // Put(nil) is a no-op
 			}
-			cur.pools[p].items = append(cur.pools[p].items, args[1])
+			if pl.private == nil {
+				pl.private = args[1]
+			} else {
+				pl.shared = append(pl.shared, args[1])
+			}
 			return nil
 		},
 		"fmt.Sprintf": func(fr *frame, args []value) value {
